@@ -9,6 +9,7 @@ import (
 	"fmt"
 	"os"
 	"path/filepath"
+	"regexp"
 	"sort"
 	"strconv"
 	"strings"
@@ -124,9 +125,18 @@ func (c *Check) HasViolation(sig string) bool {
 	return c.viol[sig] != nil
 }
 
+var reKnown = regexp.MustCompile(`^known: property=(\S+) sig=("(?:[^"\\]|\\.)*") (.*)$`)
+var reFixed = regexp.MustCompile(`^fixed: property=(\S+) (\S+) (.*)$`)
+
+// LoadFindings parses /verif/known_findings.txt:
+//
+//	known: property=<id> sig="<signature>" <what fails>
+//	fixed: property=<id> <commit> <what failed>
+//
+// Only "known" lines suppress anything; "fixed" lines are a record.
 func LoadFindings() []Finding {
 	var out []Finding
-	b, err := os.ReadFile(filepath.Join(Root(), "known_findings.jsonl"))
+	b, err := os.ReadFile(filepath.Join(Root(), "known_findings.txt"))
 	if err != nil {
 		return nil
 	}
@@ -135,12 +145,21 @@ func LoadFindings() []Finding {
 		if l == "" || strings.HasPrefix(l, "#") {
 			continue
 		}
-		var f Finding
-		if err := json.Unmarshal([]byte(l), &f); err != nil {
-			fmt.Fprintf(os.Stderr, "known_findings.jsonl: bad line %q: %v\n", l, err)
-			os.Exit(2)
+		if m := reKnown.FindStringSubmatch(l); m != nil {
+			sig, err := strconv.Unquote(m[2])
+			if err != nil {
+				fmt.Fprintf(os.Stderr, "known_findings.txt: bad signature in %q\n", l)
+				os.Exit(2)
+			}
+			out = append(out, Finding{Status: "known", Property: m[1], Sig: sig, What: m[3]})
+			continue
 		}
-		out = append(out, f)
+		if m := reFixed.FindStringSubmatch(l); m != nil {
+			out = append(out, Finding{Status: "fixed", Property: m[1], Commit: m[2], What: m[3]})
+			continue
+		}
+		fmt.Fprintf(os.Stderr, "known_findings.txt: unparsable line %q\n", l)
+		os.Exit(2)
 	}
 	return out
 }
